@@ -40,7 +40,7 @@ Theorem C12_instance : forall (V : Type) (bin : binop -> V -> V -> V) (sigma : n
     (args args' : nat -> option V) (n : node V),
   wf V n -> forall n', rebuild V sigma n = Some n' ->
   (forall q, In q (prior_ids V n) -> args' (sd sigma q) = args q) ->
-  inst V bin args' n' = inst V bin args n.
+  inst V bin un args' n' = inst V bin un args n.
 Proof. exact rebuild_inst. Qed.
 
 (* MEANS / BOUNDED MODES keep ids: every query of the new model equals that of the old one *)
@@ -53,7 +53,7 @@ Proof. exact l_structure_kept. Qed.
 Theorem C12_instance_kept : forall (V : Type) (L : leaves V) cfg specs (bin : binop -> V -> V -> V) (md : mode V)
     (n n' : node V) sp (args : nat -> option V),
   wf V n -> keeps_ids V md -> lpass V L cfg specs md n = Ok (n', sp) ->
-  inst V bin args n' = inst V bin args n.
+  inst V bin un args n' = inst V bin un args n.
 Proof. exact l_instance_kept. Qed.
 
 (* OWN VALUE (the pairing itself is zip_derive's definition; the content is that the priors REPORTED for the new model,
@@ -298,8 +298,8 @@ Proof. exact l_replace_total. Qed.
 
 (* COMPONENTS FIXED TO THE BEST-FIT INSTANCE: no free parameter left; every assignment builds that instance *)
 Theorem C12_fixed_instance : forall (V : Type) (bin : binop -> V -> V -> V) (vals : nat -> option V) (n : node V),
-  wf V n -> forall n', fix_tree V bin vals n = Some n' ->
-  walk V n' = [] /\ forall args', inst V bin args' n' = inst V bin vals n.
+  wf V n -> forall n', fix_tree V bin un vals n = Some n' ->
+  walk V n' = [] /\ forall args', inst V bin un args' n' = inst V bin un vals n.
 Proof. exact fixed_instance. Qed.
 
 (* the executable instances are instances of the theorems above *)
